@@ -1,16 +1,27 @@
 (* C15 - documentation text is carried only inside comments of the generated code.
 
-   [safe_<l>]: the doc strings that stay inside the comment form the back end of language <l> prints
+   [c15_carried]: WHAT a doc attribute carries.  After the repair of parse_comment_attrs a doc attribute
+   with value v carries the LIST of the trimmed lines of [trim v] (an empty [trim v] carries one empty
+   line).  No carried line contains a line break (Props/C15.v, C15_carried_no_break).
+   [c15_written]: HOW a carried line is written.  Verbatim, except that TypeScript writes a comment
+   terminator (star slash) as star backslash slash, and a Python docstring writes three double quotes as
+   backslash quote, three times: the line is reproduced MODULO THIS ESCAPE, and what has to stay inside the
+   comment is the text as written.
+   [safe_<l>]: the written strings that stay inside the comment form the back end of language <l> prints
    them in.  Each is a plain condition on the string; that it is EXACTLY the set of strings the
-   reference lexer of Spec/Lexers.v keeps inside the comment is Props/C15.v (C15_contained_<l> and
-   C15_necessary_<l>).
+   reference lexer of Spec/Lexers.v keeps inside the comment is Props/C15.v (C15_exact_written).
+   [c15_safe l]: the same as a condition on the doc string before it is written; it holds of every
+   string for TypeScript and for Python docstrings (the escapes remove the terminators), and of every
+   string without LF / CR for the line-comment writers - hence of every carried line.
    [<l>_tmpl]: the shape of the comment fragment a back end prints for a list of doc strings, as
    literal pieces and doc pieces (independent of the model; Props/C15.v, C15_fragment_<l> proves that
    its text IS what the model's write_comments prints).
-   [known_C15]: the finding classes of the unchanged tree, decided on the doc strings of the input.
-   [good_C15]: the verdict on a generated file, given the doc strings that were planted in the input:
-   every doc string occurs in the file (reproduced) and every character of every occurrence is read
-   by the reference lexer inside a comment / docstring, the lexer being back in code at the end.
+   [known_C15]: the finding classes.  None is left: the six classes of the unrepaired tree (status
+   `fixed` in KNOWN_FINDINGS.jsonl) are no carve-out any more.
+   [good_C15]: the verdict on a generated file, given the strings that must be found in it (the
+   carried lines as written): every one occurs in the file (reproduced) and every character of every
+   occurrence is read by the reference lexer inside a comment / docstring, the lexer being back in code
+   at the end.
    Nothing here refers to the model of typeshare. *)
 From Coq Require Import List NArith Bool String.
 From TS Require Import Model.Str Model.Unicode Model.Types Spec.Lexers.
@@ -46,18 +57,43 @@ Definition safe_py_hash (d : str) : bool := safe_line eol_lf_cr d.
 Definition safe_py (docstring : bool) (d : str) : bool :=
   if docstring then safe_py_docstring d else safe_py_hash d.
 
-(* ---- the comment fragments ---- *)
+(* ---- how a doc string is written ----
+   TypeScript (typescript.rs write_comments): a backslash is written between a star and the slash that follows
+   it, so the written text contains no comment terminator (this is str::replace of star slash by star
+   backslash slash: the pattern cannot overlap itself). *)
+Fixpoint c15_esc_ts (d : str) : str :=
+  match d with
+  | [] => []
+  | c :: r => if (c =? ch_star) && starts_with [ch_slash] r then c :: ch_bs :: c15_esc_ts r else c :: c15_esc_ts r
+  end.
+(* Python docstrings (python.rs write_comments): three double quotes in a row are written backslash quote,
+   backslash quote, backslash quote; leftmost first, the search resumes after the three quotes (str::replace):
+   four quotes become three escaped ones and a bare one. *)
+Fixpoint c15_esc_py (d : str) : str :=
+  match d with
+  | [] => []
+  | c :: r =>
+    match r with
+    | c2 :: c3 :: r3 =>
+      if (c =? ch_dq) && (c2 =? ch_dq) && (c3 =? ch_dq)
+      then [ch_bs; ch_dq; ch_bs; ch_dq; ch_bs; ch_dq] ++ c15_esc_py r3
+      else c :: c15_esc_py r
+    | _ => c :: c15_esc_py r
+    end
+  end.
+
+(* ---- the comment fragments, given the strings AS WRITTEN ---- *)
 Definition tabs_ (n : nat) : str := repeat_str [ch_tab] n.
 (* one line per doc string: indent and opener, the doc string, newline *)
 Definition line_tmpl (pre : str) (docs : list str) : list piece :=
   flat_map (fun d => [PLit pre; PDoc d; PLit [ch_nl]]) docs.
 
-Definition kt_tmpl (indent : nat) (docs : list str) : list piece := line_tmpl (tabs_ indent ++ lit "/// ") docs.
-Definition sw_tmpl (indent : nat) (docs : list str) : list piece := line_tmpl (tabs_ indent ++ lit "/// ") docs.
-Definition sc_tmpl (indent : nat) (docs : list str) : list piece := line_tmpl (tabs_ indent ++ lit "// ") docs.
-Definition go_tmpl (indent : nat) (docs : list str) : list piece := line_tmpl (tabs_ indent ++ lit "// ") docs.
+Definition kt_tmpl_w (indent : nat) (docs : list str) : list piece := line_tmpl (tabs_ indent ++ lit "/// ") docs.
+Definition sw_tmpl_w (indent : nat) (docs : list str) : list piece := line_tmpl (tabs_ indent ++ lit "/// ") docs.
+Definition sc_tmpl_w (indent : nat) (docs : list str) : list piece := line_tmpl (tabs_ indent ++ lit "// ") docs.
+Definition go_tmpl_w (indent : nat) (docs : list str) : list piece := line_tmpl (tabs_ indent ++ lit "// ") docs.
 (* typescript.rs:369: one doc string: `/** d */`; several: `/**`, a ` * d` line each, ` */` *)
-Definition ts_tmpl (indent : nat) (docs : list str) : list piece :=
+Definition ts_tmpl_w (indent : nat) (docs : list str) : list piece :=
   match docs with
   | [] => []
   | [d] => [PLit (tabs_ indent ++ lit "/** "); PDoc d; PLit (lit " */" ++ [ch_nl])]
@@ -66,7 +102,7 @@ Definition ts_tmpl (indent : nat) (docs : list str) : list piece :=
   end.
 (* python.rs:494: docstring: three double quotes, the doc strings one per line, three double quotes,
    all at the indent (four spaces per level); otherwise `# d` lines *)
-Definition py_tmpl (docstring : bool) (indent_level : nat) (docs : list str) : list piece :=
+Definition py_tmpl_w (docstring : bool) (indent_level : nat) (docs : list str) : list piece :=
   let indent := repeat_str (lit "    ") indent_level in
   match docs with
   | [] => []
@@ -82,16 +118,37 @@ Inductive c15_lang := C15ts | C15kt | C15sw | C15sc | C15go | C15py.
 Definition c15_cfg (l : c15_lang) : lexcfg :=
   match l with C15ts => cfg_ts | C15kt => cfg_kt | C15sw => cfg_sw | C15sc => cfg_sc | C15go => cfg_go | C15py => cfg_py end.
 (* [docstring] only matters for Python *)
-Definition c15_safe (l : c15_lang) (docstring : bool) (d : str) : bool :=
+Definition c15_safe_w (l : c15_lang) (docstring : bool) (w : str) : bool :=
   match l with
-  | C15ts => safe_ts d | C15kt => safe_kt d | C15sw => safe_sw d | C15sc => safe_sc d | C15go => safe_go d
-  | C15py => safe_py docstring d
+  | C15ts => safe_ts w | C15kt => safe_kt w | C15sw => safe_sw w | C15sc => safe_sc w | C15go => safe_go w
+  | C15py => safe_py docstring w
   end.
+Definition c15_tmpl_w (l : c15_lang) (docstring : bool) (indent : nat) (ws : list str) : list piece :=
+  match l with
+  | C15ts => ts_tmpl_w indent ws | C15kt => kt_tmpl_w indent ws | C15sw => sw_tmpl_w indent ws
+  | C15sc => sc_tmpl_w indent ws | C15go => go_tmpl_w indent ws | C15py => py_tmpl_w docstring indent ws
+  end.
+
+(* the text a back end writes for the doc string d (Python: in the docstring form / in the `# ` form) *)
+Definition c15_written (l : c15_lang) (docstring : bool) (d : str) : str :=
+  match l with
+  | C15ts => c15_esc_ts d
+  | C15py => if docstring then c15_esc_py d else d
+  | _ => d
+  end.
+(* the doc string stays inside its comment when written *)
+Definition c15_safe (l : c15_lang) (docstring : bool) (d : str) : bool := c15_safe_w l docstring (c15_written l docstring d).
+
+(* ---- the comment fragments, given the doc strings ---- *)
 Definition c15_tmpl (l : c15_lang) (docstring : bool) (indent : nat) (docs : list str) : list piece :=
-  match l with
-  | C15ts => ts_tmpl indent docs | C15kt => kt_tmpl indent docs | C15sw => sw_tmpl indent docs
-  | C15sc => sc_tmpl indent docs | C15go => go_tmpl indent docs | C15py => py_tmpl docstring indent docs
-  end.
+  c15_tmpl_w l docstring indent (map (c15_written l docstring) docs).
+Definition ts_tmpl (indent : nat) (docs : list str) : list piece := c15_tmpl C15ts false indent docs.
+Definition kt_tmpl (indent : nat) (docs : list str) : list piece := c15_tmpl C15kt false indent docs.
+Definition sw_tmpl (indent : nat) (docs : list str) : list piece := c15_tmpl C15sw false indent docs.
+Definition sc_tmpl (indent : nat) (docs : list str) : list piece := c15_tmpl C15sc false indent docs.
+Definition go_tmpl (indent : nat) (docs : list str) : list piece := c15_tmpl C15go false indent docs.
+Definition py_tmpl (docstring : bool) (indent_level : nat) (docs : list str) : list piece :=
+  c15_tmpl C15py docstring indent_level docs.
 Definition c15_contained (l : c15_lang) (st : lstate) (t : mtext) : bool := contained_gen (c15_cfg l) st t.
 
 (* ---- whole files as code parts and comment fragments ---- *)
@@ -133,7 +190,7 @@ Definition c15_docstring_at (p : c15_pos) : bool :=
   match p with C15alg_enum => false | _ => true end.
 
 (* a documented position of the input: where, and its doc strings (as they arrive from
-   parse_comment_attrs: one per doc attribute) *)
+   parse_comment_attrs: the carried lines of its doc attributes) *)
 Definition c15_site := (c15_pos * list str)%type.
 Definition c15_class (l : c15_lang) : string :=
   match l with
@@ -142,31 +199,55 @@ Definition c15_class (l : c15_lang) : string :=
   end.
 Definition c15_site_safe (l : c15_lang) (s : c15_site) : bool :=
   forallb (c15_safe l (c15_docstring_at (fst s))) (snd s).
-(* The finding class of language l: some doc string at some position is outside safe_<l>. *)
-Definition known_C15 (l : c15_lang) (sites : list c15_site) : option string :=
-  if forallb (c15_site_safe l) sites then None else Some (c15_class l).
+(* The strings the generated file must contain for a position: its doc strings as written *)
+Definition c15_site_written (l : c15_lang) (s : c15_site) : list str :=
+  map (c15_written l (c15_docstring_at (fst s))) (snd s).
+(* No finding class is left.  (Before the repairs: class l = some doc string at some position is outside safe_<l>;
+   the six entries of KNOWN_FINDINGS.jsonl are `fixed`, their witnesses are pinned as C15_<l>_fixed in Props/C15.v
+   and stay in the corpus of the check, where they must pass.) *)
+Definition known_C15 (l : c15_lang) (sites : list c15_site) : option string := None.
+(* IR-level inputs only (doc strings put directly into the IR, which no source text produces): the doc
+   strings of the positions printed in a line-comment form are strings the front end can deliver as far
+   as line breaks go.  On what the front end delivers this is always true (C15_carried_safe). *)
+Definition dom_C15_ir (l : c15_lang) (sites : list c15_site) : bool := forallb (c15_site_safe l) sites.
 
 (* ---- what a doc attribute CARRIES ----
-   To syn, `/// v`, `/** v */` and #[doc = "v"] are all the attribute #[doc = v].  On the unchanged tree
-   the front end carries such an attribute as the text [trim v] (Rust's str::trim: leading and trailing
-   white space, line breaks included, removed; Props/C15.v, C15_front_raw_doc_strings /
-   C15_front_carried).  The property speaks about the CARRIED text: the expectation for a doc attribute
-   with value v is the text [trim v], every character of which must be reproduced and must stay inside
-   a comment; the characters trimmed away are not carried, hence cannot escape.  So [safe_<l>], the
-   finding classes [known_C15] and the verdict [good_C15] are decided on the carried strings, never on
-   the raw attribute values: `#[doc = "\ntext"]` or the conventional
-       /**
-        * text
-        */
-   (value: LF, " * text", LF, " ") carry `text` / `* text`, which is safe for every language, although the
-   raw value contains line breaks; a generator that printed those line breaks would violate C15 and is
-   NOT covered by the finding classes. *)
-Definition c15_carried (uc : unicode) (v : str) : str := trim uc v.
+   To syn, `/// v`, `/** v */` and #[doc = "v"] are all the attribute #[doc = v].  The front end
+   (parser.rs parse_comment_attrs) trims the value (Rust's str::trim: leading and trailing white space, line
+   breaks included, removed) and hands the back ends ONE ENTRY PER LINE of the trimmed value, each line
+   trimmed again; an empty trimmed value is one empty entry (a blank `///` line stays a paragraph
+   separator).  Lines are those of str::lines - a line ends at LF, and a CR in front of that LF belongs to
+   the line ending - and every remaining lone CR breaks a line as well.
+   The property speaks about the CARRIED text: every carried line must be reproduced (modulo the escape of
+   [c15_written]) and must stay inside a comment; the white space trimmed away is not carried, hence cannot
+   escape.  A generator that printed a trimmed-away or a splitting line break would violate C15. *)
+Definition c15_prepend (c : char) (ls : list str) : list str :=
+  match ls with [] => [[c]] | l :: r => (c :: l) :: r end.
+(* str::lines: no line for the empty string, no empty last line after a final line ending *)
+Fixpoint c15_lines (s : str) : list str :=
+  match s with
+  | [] => []
+  | c :: r =>
+    if c =? ch_nl then [] :: c15_lines r
+    else match r with
+         | c2 :: r2 => if (c =? ch_cr) && (c2 =? ch_nl) then [] :: c15_lines r2 else c15_prepend c (c15_lines r)
+         | [] => [[c]]
+         end
+  end.
+(* the pieces between the occurrences of c: one more piece than occurrences *)
+Fixpoint c15_split_at (c : char) (s : str) : list str :=
+  match s with
+  | [] => [[]]
+  | x :: r => if x =? c then [] :: c15_split_at c r else c15_prepend x (c15_split_at c r)
+  end.
+Definition c15_carried (uc : unicode) (v : str) : list str :=
+  match trim uc v with
+  | [] => [[]]
+  | t => map (trim uc) (flat_map (c15_split_at ch_cr) (c15_lines t))
+  end.
 (* sites given by the attribute values as written in the source -> sites as carried *)
 Definition c15_carried_sites (uc : unicode) (raw : list c15_site) : list c15_site :=
-  map (fun s => (fst s, map (c15_carried uc) (snd s))) raw.
-Definition known_C15_attrs (uc : unicode) (l : c15_lang) (raw : list c15_site) : option string :=
-  known_C15 l (c15_carried_sites uc raw).
+  map (fun s => (fst s, flat_map (c15_carried uc) (snd s))) raw.
 
 (* ---- the verdict on a generated file ---- *)
 (* mark every occurrence of every doc string in the text ([k] = characters still to mark) *)
